@@ -117,7 +117,8 @@ def run(ctx: core.Ctx) -> int:
     mdl = [s for s in ast.walk(tr) if isinstance(s, ast.Assign) and ast.unparse(s.targets[0]) == "self.model_"]
     okm = len(mdl) == 1 and isinstance(mdl[0].value, ast.Call) and ast.unparse(mdl[0].value.func) == "compile_ekf"
     if okm:
-        kws = {k.arg: ast.unparse(k.value) for k in mdl[0].value.keywords}
+        bound = core.bind_call(mdl[0].value, core.find_func(mod, "compile_ekf"))
+        kws = {k: ast.unparse(v) for k, v in (bound or {}).items()}
         okm = kws == {k: f"self.{k}" for k in ("symbolic_model", "process_noise", "sensor_models", "sensor_noises", "calibration_map", "config")}
     ctx.oblige("SEQUENCE", where, "self.model_ = compile_ekf(<the adapter's own six parameters>)", okm, file=F, func=q, construct="model_ construction",
                msg="transform does not run the filter compiled from exactly the adapter's own parameters")
